@@ -6,6 +6,9 @@ in random surroundings:
    truthinesses) x validator latency {at once, before, at (three tie linearisations), after the deadline, never};
  * Interest side, suspended validators: the validator of an incoming Interest takes its time while the application attaches /
    detaches routes or replaces the application-wide validator (Model/GateSuspend.v, suspended_table / random_susp);
+ * validator OUTCOMES: wherever a validator is consulted it accepts, rejects or TERMINATES WITH AN EXCEPTION (every exception
+   class of ndn.types + Exception / TimeoutError / CancelledError / OSError; at once or after a suspension): only an ACCEPT lets
+   anything through to the handler / the caller;
  * Interest side: every verdict x ApplicationParameters present x signature {none, DigestSha256 ok, DigestSha256 bad}
    x parameters-digest correct x route with/without its own validator x no route, in both front-ends, x every
    placement of a replacement of the application-wide validator (legacy app.int_validator) relative to the installation
@@ -37,6 +40,20 @@ RULE = ('Data side: verdict x latency table (6 resp. 9 verdict values x 8 latenc
         'accepted it (Spec.may_deliver / in_force) and was the one consulted, no double delivery, nothing delivered without a verdict, '
         'an accepted Interest whose route is unchanged is delivered; correspondence with Model/GateSuspend.v (handler calls, '
         'validator consultations). '
+        'VALIDATOR OUTCOMES (every place a validator is consulted: route validators of both front-ends, the legacy application-wide '
+        'Interest validator, the Data validator given to express of both front-ends): accept / reject (every verdict value) / '
+        'TERMINATES WITH AN EXCEPTION, one outcome per exception class that ndn.types defines (reflected: NetworkError, '
+        'InterestTimeout, InterestCanceled, InterestNack, ValidationFailure) and per built-in Exception, TimeoutError, CancelledError, '
+        'OSError; raised at once or when a suspended validator is resumed. Interest side: the full params x signature x digest product '
+        'against all routes under the placements after-routes and replaced-restored (legacy; appv2: never; thorough: all placements), '
+        'every suspended-validator update in the window x route with / without validator x (legacy) replaced application-wide '
+        'validator, and with probability 0.2 per Interest in the random interleavings; Data side: every exception x the 8 latencies, '
+        'plus random pipeline histories whose immediate verdicts / vdone events are replaced by exceptions (p = 0.5). Oracle: a '
+        'validator that raised has not accepted - handler called iff Spec.may_deliver with a non-passing verdict '
+        '(delivered-unvalidated:...:verdict=raise:<Class>), and for ANY pipeline history an Interest completes with the payload only '
+        'if some outcome the history gives its validator is an accepting verdict (data-without-accepting-verdict); that the exception '
+        'itself escapes from the task the library created (legacy / appv2 Interests, appv2 Data) or reaches the awaiting caller (legacy '
+        'Data) is not judged; '
         'plus the C03 random histories with all verdicts. non-trivial = the validator is consulted or a gate decision is taken; '
         'distinct by history')
 ASSUMPTIONS = ['validators are harness coroutines (verdict chosen by the history); the parameters digest / DigestSha256 '
@@ -45,6 +62,11 @@ ASSUMPTIONS = ['validators are harness coroutines (verdict chosen by the history
                'sha256_digest_checker until a setdefault event assigns a harness validator to the documented attribute '
                'app.int_validator (and again after one restores the saved library default); appv2 has no application-wide '
                'validator, the event does nothing there',
+               'a validator that terminates with an exception is given a non-passing verdict in the model vocabulary (V2: 5, V1: 0); '
+               'appv2 Data validators that die with anything but TimeoutError / CancelledError are translated to "never answers" '
+               '(their task dies, nobody resolves the future); legacy Data validators that raise: model and implementation are '
+               'compared as "no payload, at the same virtual time" for that Interest (the caller gets the exception itself, the model '
+               'a ValidationFailure); loop-handler reports whose exception IS the object a harness validator raised are set aside',
                'the application-wide Data validator (legacy app.data_validator, used when express_interest is given '
                'validator=None) is not exercised: every expressed Interest carries its own validator']
 
